@@ -127,6 +127,7 @@ type Interp struct {
 	frozenAll  bool
 	freezeID   uint64
 	onceDepth  int
+	pools      map[ptrKey][]Value // sync.Pool contents on the current path
 	Digest     []byte
 	Notes      []string
 	skipInit   func(pkgPath string) bool
